@@ -23,7 +23,7 @@ ITEMS = ["WSMsgType opcodes", "WSCloseCode members / ALLOWED_CLOSE_CODES shape",
          "MAX_PAYLOAD_LEN", "_max_fragments formula", "reserved-bits test", "opcode set", "fragmented-control test",
          "control-length test", "control rsv1 test", "continuation rsv1 test", "64-bit length cap test",
          "pre-buffering size test", "inflate cap expression", "post-inflate size test", "close-code test",
-         "check order in READ_HEADER", "feed_data latch shape"]
+         "check order in READ_HEADER", "had_fragments shape", "feed_data latch shape"]
 
 READER = "aiohttp/_websocket/reader_py.py"
 MODELS = "aiohttp/_websocket/models.py"
@@ -226,12 +226,34 @@ def generate() -> str:
     out.append("(* aiohttp/_websocket/models.py WSMsgType (wire opcodes) *)")
     for nm in ("CONTINUATION", "TEXT", "BINARY", "CLOSE", "PING", "PONG"):
         out.append(f"Definition OP_{nm} : N := {ops['OP_CODE_' + nm]}.")
-    out.append("\n(* WSCloseCode members; reader_py.ALLOWED_CLOSE_CODES = {int(i) for i in WSCloseCode} *)")
+    out.append("\n(* WSCloseCode members; reader_py.ALLOWED_CLOSE_CODES = {int(i) for i in WSCloseCode if i is not WSCloseCode.<excluded>} *)")
     v = core.find_assign(READER, "ALLOWED_CLOSE_CODES")
-    exp = ast.parse("{int(i) for i in WSCloseCode}", mode="eval").body
-    if ast.dump(v) != ast.dump(exp):
-        raise TranslatorError("ALLOWED_CLOSE_CODES is not `{int(i) for i in WSCloseCode}`")
-    out.append(f"Definition ALLOWED_CLOSE_CODES : list N := {core.coq_N_list(sorted(closes.values()))}.")
+    # accepted shape: {int(i) for i in WSCloseCode if i is not WSCloseCode.<MEMBER>}  (exactly one exclusion)
+    excluded = None
+    ok = (isinstance(v, ast.SetComp) and len(v.generators) == 1 and len(v.generators[0].ifs) <= 1)
+    if ok and not v.generators[0].ifs:
+        g = v.generators[0]
+        ok = (ast.dump(v.elt) == ast.dump(ast.parse("int(i)", mode="eval").body) and isinstance(g.target, ast.Name)
+              and g.target.id == "i" and isinstance(g.iter, ast.Name) and g.iter.id == "WSCloseCode" and not g.is_async)
+        excluded = ""
+    elif ok:
+        g = v.generators[0]
+        t = g.ifs[0]
+        ok = (ast.dump(v.elt) == ast.dump(ast.parse("int(i)", mode="eval").body)
+              and isinstance(g.target, ast.Name) and g.target.id == "i"
+              and isinstance(g.iter, ast.Name) and g.iter.id == "WSCloseCode" and not g.is_async
+              and isinstance(t, ast.Compare) and len(t.ops) == 1 and isinstance(t.ops[0], ast.IsNot)
+              and isinstance(t.left, ast.Name) and t.left.id == "i"
+              and isinstance(t.comparators[0], ast.Attribute) and isinstance(t.comparators[0].value, ast.Name)
+              and t.comparators[0].value.id == "WSCloseCode")
+        if ok:
+            excluded = t.comparators[0].attr
+    if not ok or (excluded != "" and excluded not in closes):
+        raise TranslatorError("ALLOWED_CLOSE_CODES is neither `{int(i) for i in WSCloseCode}` nor "
+                              "`{int(i) for i in WSCloseCode if i is not WSCloseCode.<member>}`")
+    allowed = sorted(val for nm, val in closes.items() if nm != excluded)
+    out.append(f"(* excluded member: {('WSCloseCode.' + excluded + ' = ' + str(closes[excluded])) if excluded else 'none'} *)")
+    out.append(f"Definition ALLOWED_CLOSE_CODES : list N := {core.coq_N_list(allowed)}.")
     out.append(f"Definition CODE_PROTOCOL_ERROR : N := {closes['PROTOCOL_ERROR']}.")
     out.append(f"Definition CODE_INVALID_TEXT : N := {closes['INVALID_TEXT']}.")
     out.append(f"Definition CODE_MESSAGE_TOO_BIG : N := {closes['MESSAGE_TOO_BIG']}.")
@@ -325,6 +347,23 @@ def generate() -> str:
     exp_pl = ast.parse("partial_len = len(self._partial)").body[0]
     if not (len(pl) == 1 and ast.dump(pl[0]) == ast.dump(exp_pl)):
         raise TranslatorError("size test: `partial_len = len(self._partial)` not found")
+    # had_fragments = len(self._payload_fragments): the *list* decides whether fragments are joined and cleared
+    hfs = [n for n in ast.walk(fd) if isinstance(n, ast.Assign) and len(n.targets) == 1
+           and isinstance(n.targets[0], ast.Name) and n.targets[0].id == "had_fragments"]
+    exp_hf = {ast.dump(ast.parse("had_fragments = len(self._payload_fragments)").body[0]): "nfrags",
+              ast.dump(ast.parse("had_fragments = self._frame_payload_len").body[0]): "frame_payload_len"}
+    if len(hfs) != 1 or ast.dump(hfs[0]) not in exp_hf:
+        raise TranslatorError("`had_fragments = len(self._payload_fragments)` (or `= self._frame_payload_len`) not found")
+    hf_var = exp_hf[ast.dump(hfs[0])]
+    uses = [n for n in ast.walk(fd) if isinstance(n, ast.If) and isinstance(n.test, ast.Name) and n.test.id == "had_fragments"]
+    if len(uses) != 1:
+        raise TranslatorError("expected exactly one `if had_fragments:`")
+    clears = [n for n in ast.walk(uses[0]) if isinstance(n, ast.Call) and isinstance(n.func, ast.Attribute)
+              and n.func.attr == "clear" and ast.unparse(n.func.value) == "self._payload_fragments"]
+    if len(clears) != 1 or any(c in list(ast.walk(ast.Module(body=uses[0].orelse, type_ignores=[]))) for c in clears):
+        raise TranslatorError("`self._payload_fragments.clear()` must be in the `if had_fragments:` branch")
+    out.append(f"\n(* {ast.unparse(hfs[0])}  (truthiness); the `if had_fragments:` branch appends, joins and clears the list *)")
+    out.append(f"Definition had_fragments (nfrags frame_payload_len : N) : bool := negb ({hf_var} =? 0).")
     if len(items) != 8:
         raise TranslatorError(f"_feed_data: expected 8 guarded WebSocketError raises, found {len(items)}")
 
